@@ -154,8 +154,28 @@ def enc_attr(name: str, a: ir.Attr, case: Case, op: str) -> str:
 
 
 def enc_graph(g: ir.Graph, case: Case, vis: dict) -> list[str]:
+    # The Lean model identifies a value with its name; ONNX only requires names to be unique per scope (two sibling If
+    # branches may each own an initializer `w`).  Values are therefore named by object identity: the second distinct
+    # value met under a name already in use is sent to the model as `name.dK` (canonical forms do not depend on names).
+    names = case.__dict__.setdefault("_enc_names", {})
+    used = case.__dict__.setdefault("_enc_used", set())
+    keep = case.__dict__.setdefault("_enc_keep", [])
+
+    def nm(v: ir.Value) -> str:
+        got = names.get(id(v))
+        if got is not None:
+            return got
+        name, k = v.name, 0
+        while name in used:
+            k += 1
+            name = f"{v.name}.d{k}"
+        used.add(name)
+        names[id(v)] = name
+        keep.append(v)
+        return name
+
     def see(v: ir.Value):
-        if v is None or v.name in vis:
+        if v is None or nm(v) in vis:
             return
         dt = "?"
         if v.type is not None:
@@ -166,17 +186,17 @@ def enc_graph(g: ir.Graph, case: Case, vis: dict) -> list[str]:
         c = "-"
         if v.const_value is not None:
             c = case.tok(const_array(v.const_value), v.const_value.dtype.value)
-        vis[v.name] = f"{q(v.name)} {dt} {enc_shape(v.shape)} {c}"
+        vis[nm(v)] = f"{q(nm(v))} {dt} {enc_shape(v.shape)} {c}"
 
     out = ["G", str(len(g.inputs))]
     for v in g.inputs:
         see(v)
-        out.append(q(v.name))
+        out.append(q(nm(v)))
     inits = list(g.initializers.values())
     out.append(str(len(inits)))
     for v in inits:
         see(v)
-        out += [q(v.name), case.tok(const_array(v.const_value), v.const_value.dtype.value)]
+        out += [q(nm(v)), case.tok(const_array(v.const_value), v.const_value.dtype.value)]
     nodes = list(g)
     out.append(str(len(nodes)))
     for n in nodes:
@@ -185,9 +205,9 @@ def enc_graph(g: ir.Graph, case: Case, vis: dict) -> list[str]:
         for v in n.outputs:
             see(v)
         out += ["N", n.op_type, q(n.domain), str(len(n.inputs))]
-        out += ["-" if v is None else q(v.name) for v in n.inputs]
+        out += ["-" if v is None else q(nm(v)) for v in n.inputs]
         out.append(str(len(n.outputs)))
-        out += [q(v.name) for v in n.outputs]
+        out += [q(nm(v)) for v in n.outputs]
         plain, subs = [], []
         for k, a in n.attributes.items():
             if a.type == ir.AttributeType.GRAPH:
@@ -203,7 +223,7 @@ def enc_graph(g: ir.Graph, case: Case, vis: dict) -> list[str]:
             out.append(k)
             out += enc_graph(sg, case, vis)
     out.append(str(len(g.outputs)))
-    out += [q(v.name) for v in g.outputs]
+    out += [q(nm(v)) for v in g.outputs]
     return out
 
 
